@@ -196,6 +196,10 @@ def ops : List (String × String × Fn) := [
     | [n, a, d] => let r := (udivRem n (sec n a) (sec n d)).val
       s!"{hx r.1} {hx r.2} ;; {natToHex (a / d)} {natToHex (a % d)}"
     | _ => bad),
+  op "c01.leak.div_rem_vartime" "dhh" (fun
+    | [n, a, d] => let r := (divRemVartime n (sec n a) (sec n d)).val
+      s!"{hx r.1} {hx r.2} ;; {natToHex (a / d)} {natToHex (a % d)}"
+    | _ => bad),
   op "c01.leak.sqrt" "dh" (fun
     | [n, a] => s!"{hx (sqrt n (sec n a)).val} ;; {natToHex (isqrt a)}"
     | _ => bad),
@@ -408,6 +412,11 @@ def ops : List (String × String × Fn) := [
       let r := (safegcdInv n (sec n m) (sec n v)).val
       s!"{opt (hx r.1) r.2} ;; {match egcdInv v m with | some x => natToHex x | none => "none"}"
     | _ => bad),
+  op "c01.leak.inv_mod" "dhh" (fun   -- any modulus
+    | [n, m, v] =>
+      let r := (uinvMod n (sec n v) (sec n m)).val
+      s!"{opt (hx r.1) r.2} ;; {if m % B ^ n = 0 then "none" else match egcdInv v m with | some x => natToHex x | none => "none"}"
+    | _ => bad),
   op "c01.leak.gcd" "dhh" (fun
     | [n, a, b] =>
       s!"{hx (ugcd n (sec n a) (sec n b)).val} ;; {natToHex (Nat.gcd a b)}"
@@ -435,7 +444,7 @@ def ops : List (String × String × Fn) := [
     | [n, a, b, c, d] => let r := (macByLimb n (sec n a) (sec n b) (Sec.ofNat c) (Sec.ofNat d)).val
       s!"{hx r.1} {wd r.2} ;; {natToHex ((a + b * c + d) % B ^ n)} {natToHex ((a + b * c + d) / B ^ n)}"
     | _ => bad),
-  op "c01.leak.monty_params" "dh" (fun   -- m odd
+  op "c01.hook.monty_params" "dh" (fun   -- m odd
     | [n, m] => let r := (montyParamsNew n (sec n m)).val
       s!"{hx r.1} {hx r.2.1} {hx r.2.2.1} {wd r.2.2.2.1} {wd r.2.2.2.2} ;; {natToHex (B ^ n % m)} {natToHex (B ^ (2 * n) % m)} {natToHex (B ^ (3 * n) % m)} {natToHex (negInv64 m)} {natToHex (min (lz n m) 63)}"
     | _ => bad),
